@@ -834,7 +834,7 @@ pub fn generate(d: &mut Draw, thorough: bool) -> Plan {
         let props = if d.chance(1, 4) { vec![("DEPTH".to_string(), Prop::Int(4))] } else { vec![] };
         locals.push(Local { name: format!("q{k}"), dir, props });
     }
-    let strict_det = d.chance(1, 5);
+    let strict_det = d.chance(1, 8);
     let command_backend = d.chance(1, if thorough { 10 } else { 40 });
     let np = projects.len();
     let nl = locals.len();
